@@ -34,6 +34,11 @@ class Check(PropertyCheck):
             tag = "{" + self.rng.choice(["a", "b1", "a,b"]) + "}"
             out.append(gen.box(w + len(tag), 1, inner=[" " * self.rng.below(w) + tag]))
         out += [gen.zoo(self.rng) for _ in range(n // 4)]
+        # labels in scripts with their own layout rules (right-to-left, combining, emoji sequences), plain, quoted, in a box
+        for lab in gen.SCRIPT_LABELS:
+            k = self.rng.below(3)
+            out.append(" " * self.rng.below(6) + lab if k == 0 else '  "' + lab + '" |' if k == 1 else
+                       gen.box(len(lab) + 4, 1, inner=[" " + lab]))
         for _ in range(n // 8):
             # shapes inside shapes inside shapes, with labels / tags / small drawings at every level
             depth = self.rng.range(2, 4)
